@@ -248,8 +248,9 @@ func (*verifC06Mem) SetWriteDeadline(time.Time) error { return nil }
 
 // PickWait runs the helper (*Session).pickWait of the client once, the way pick() starts it in
 // Channel mode, with the abandoned mark already set or not, and the re-key roll forced. It reports
-// whether a KeyPair is queued afterwards and how many packets the helper put in the send queue.
-func (d *VerifC06Direct) PickWait(abandoned, rekey bool) (pending bool, queued int) {
+// whether a KeyPair is queued afterwards, how many packets the helper put in the send queue and
+// whether that packet is flagged as key material.
+func (d *VerifC06Direct) PickWait(abandoned, rekey bool) (pending bool, queued int, crypt bool) {
 	old := VerifC06Roll
 	VerifC06Roll = func(*Session, int) uint32 {
 		if rekey {
@@ -265,7 +266,12 @@ func (d *VerifC06Direct) PickWait(abandoned, rekey bool) (pending bool, queued i
 	}
 	before := len(d.C.send)
 	d.C.pickWait(&o)
-	return d.C.keysNext != nil, len(d.C.send) - before
+	if queued = len(d.C.send) - before; queued == 1 && before == 0 {
+		p := <-d.C.send
+		crypt = p.Flags&com.FlagCrypt != 0
+		d.C.send <- p
+	}
+	return d.C.keysNext != nil, queued, crypt
 }
 
 // DrainSend empties the client's send queue.
